@@ -372,7 +372,9 @@ QUICK = [('u8', 'u16'), ('u16', 'u8'), ('u8', 'f32'), ('f32', 'u8'), ('u16', 'f3
          ('i8', 'u8'), ('u8', 'i8'), ('i16', 'u8'), ('i8', 'i16'), ('i16', 'i8'), ('u32', 'f32'), ('f32', 'u32'),
          ('i32', 'u8'), ('u8', 'i32'), ('f32', 'i8'), ('i16', 'f32'), ('u8', 'u8'), ('f32', 'f32'), ('p5', 'p6'), ('p3', 'p7'), ('p7', 'u32'),
          # full-width packed channels (integer_t exactly N bits wide: intermediate sums can wrap in the carrier type)
-         ('p8', 'p5'), ('p16', 'p15'), ('p16', 'p7'), ('p8', 'u16'), ('p5', 'p8'), ('u8', 'p8'), ('p16', 'u8')]
+         ('p8', 'p5'), ('p16', 'p15'), ('p16', 'p7'), ('p8', 'u16'), ('p5', 'p8'), ('u8', 'p8'), ('p16', 'u8'),
+         # float <-> full-width packed (the float converter narrows to the destination's integer type)
+         ('f32', 'p8'), ('f32', 'p16'), ('p8', 'f32'), ('f32', 'p5')]
 BASE9 = ['u8', 'u16', 'u32', 'i8', 'i16', 'i32', 'f32', 'p5', 'p11']
 THOROUGH = [(a, b) for a in BASE9 for b in BASE9] + \
     [('p%d' % n, 'u8') for n in range(1, 8)] + [('u8', 'p%d' % n) for n in range(1, 8)] + \
